@@ -152,4 +152,50 @@ Theorem C11_best_first_not_optimal_F30 :
     end.
 Proof. exact optimality_refuted. Qed.
 
+(* THE TRUE PART OF CLAUSE 1 (clause 1 itself is false of the search: F43, F30).  A line without child lines whose all-Continue layout
+   is admissible (every requirement MustNotBreak or Indifferent along the way) and measures at most the limit is returned unbroken,
+   in one or two iterations, paying only its first token's break; the check is monotone in the limit; hence a FILE whose every
+   top-level line passes the (executable) check line_unbroken at some limit is laid out identically - the whole result of the first
+   phase, events included - at every wider limit.  (Lines with child lines that have two placement options put two nodes into the heap:
+   that is where ties and pruning live.) *)
+From PasfmtVerif Require Import Model.WrapContexts Model.WrapSearch Model.WrapFormat Proofs.WrapSearchProofs Proofs.WrapWidthFree Proofs.WrapSimProofs Proofs.WrapUnconstrainedProofs Proofs.WrapWidthIndependence Proofs.WrapFileProofs Proofs.WrapNoBreakProofs Proofs.WrapTwoPhaseProofs.
+Theorem C11_file_that_fits_unbroken_is_stable_at_every_wider_limit :
+  forall (rs : rsettings) (W W' : wsettings) (lines : list lline) (l : list ftoken),
+  same_but_max W W' ->
+  w_max W <= w_max W' ->
+  1 <= w_iter W ->
+  (forall lv : lview,
+   In lv (mk_lviews (map tokinfo_of l) lines) -> lv_top lv = true -> line_unbroken W lv = true) ->
+  olf_model rs W' false lines l = olf_model rs W false lines l.
+Proof. exact olf_model_wider. Qed.
+
+Theorem C11_line_that_fits_unbroken_is_left_unbroken :
+  forall (W : wsettings) (lvs : list lview) (fm k : nat) (st : sst) 
+    (lv : lview) (ws : N * N) (first : first_decision) (r : trec) 
+    (rest : list trec) (nd0 : node),
+  lv_recs lv = r :: rest ->
+  Forall no_kids (r :: rest) ->
+  init_node W lv ws first r rest = Some nd0 ->
+  cont_ok (w_max W) lv (length rest) nd0 = true ->
+  (2 <= fm)%nat ->
+  1 <= w_iter W ->
+  solve W lvs fm (S k) st lv ws first =
+  (sst_log
+     (Ev_S (lv_idx lv)
+        (WS_ok (n_pen nd0) match rest with
+                           | [] => 1
+                           | _ :: _ => 2
+                           end
+           match n_decs (cont_end lv (length rest) nd0) with
+           | [] => 0
+           | t :: _ => td_lll t
+           end)) st, Some (solution_of_node (cont_end lv (length rest) nd0))).
+Proof. exact solve_all_continue. Qed.
+
+Theorem C11_unbroken_check_is_monotone_in_the_limit :
+  forall (lv : lview) (M M' : N),
+  M <= M' ->
+  forall (fuel : nat) (nd : node), cont_ok M lv fuel nd = true -> cont_ok M' lv fuel nd = true.
+Proof. exact cont_ok_mono. Qed.
+
 
